@@ -679,4 +679,60 @@ class NativeDecoy(NativeCheck):
             shutil.rmtree(tmp, ignore_errors=True)
 
 
+@register
+class DecoyFromArgs(Contract):
+    """decoyFasta's options reach the fields of the same meaning: --keep-peptide-nterm / -cterm are on exactly for the text 'true', the
+    --non-shuffle-pattern list is the option split at commas, and method, enzyme, seed, maximal shuffle attempts, decoy string, its position,
+    the output order and the two paths are handed on unchanged (binding on the real constructor signature); only options the real parser
+    defines are read"""
+    path, qualname, props = DF, 'DecoyFasta.from_args', ('C20',)
+    assumptions = ('assumed: print_start_message / validate_file_format do not change the options',)
+
+    def setup(self, I):
+        from .lib import parser_dests, real_namespace
+        e = I.e
+        st = types.SimpleNamespace(made=None)
+        dests = parser_dests('moPepGen.cli.decoy_fasta', 'add_subparser_decoy_fasta')
+        st.nterm = ['true', 'false'][e.choose(2, '--keep-peptide-nterm')]
+        st.cterm = ['true', 'false'][e.choose(2, '--keep-peptide-cterm')]
+        st.opts = {d: SymObj('Opt20', name=d) for d in dests}
+        known = dict(st.opts)
+        known.update(keep_peptide_nterm=st.nterm, keep_peptide_cterm=st.cterm, non_shuffle_pattern='K,R,P')
+        st.args_obj = real_namespace(dests, known)
+        st.args = [ClassRef('DecoyFasta', I.repo.get_class('DecoyFasta')), st.args_obj]
+        self._cur = st
+        return st
+
+    @property
+    def models(self):
+        c = self
+
+        def inst(reg):
+            CM = 'moPepGen/cli/common.py'
+            reg.func_(CM, 'print_start_message', lambda I, a, k: None)
+            reg.func_(CM, 'validate_file_format', lambda I, a, k: None)
+
+            def mk(I, a, k):
+                from pyvc.interp import Env
+                mod, cls, fnode = I.repo.function_node(DF, 'DecoyFasta.__init__')
+                env = Env({})
+                I.bind_args(fnode.args, [SymObj('DecoyFasta')] + list(a), k, env, 'DecoyFasta')
+                c._cur.made = dict(env.vars)
+                return SymObj('DecoyFasta', **{k2: v for k2, v in env.vars.items() if k2 != 'self'})
+            reg.ctor_('DecoyFasta', mk)
+        return (inst,)
+
+    def bind_cls(self, I):
+        pass
+
+    def post_return(self, I, st, ret):
+        e = I.e
+        b = st.made or {}
+        e.prove('C20/from_args/an-instance-built-from-these-options', st.made is not None and isinstance(ret, SymObj) and ret.cls == 'DecoyFasta')
+        e.prove('C20/from_args/keep-flags-on-exactly-for-the-text-true', b.get('keep_peptide_nterm') is (st.nterm == 'true') and b.get('keep_peptide_cterm') is (st.cterm == 'true'))
+        e.prove('C20/from_args/pattern-list=option-split-at-commas', b.get('non_shuffle_pattern') == ['K', 'R', 'P'])
+        for nm in ('input_path', 'output_path', 'method', 'enzyme', 'shuffle_max_attempts', 'seed', 'decoy_string', 'decoy_string_position', 'order'):
+            e.prove(f'C20/from_args/--{nm.replace("_", "-")}-reaches-the-field-{nm}-unchanged', b.get(nm) is st.opts.get(nm))
+
+
 NATIVE = [NativeDecoy()]
